@@ -1082,6 +1082,11 @@ fn wide_floats<S: Subject>(acc: &mut Acc, rng: &mut Rng, n: usize) {
             None => acc.count("float.wide.roundtrip_equal"),
             Some((text, what)) => {
                 acc.count("float.wide.roundtrip_differs");
+                let sig = format!("c42/roundtrip-differs/float-precision/{}", S::NAME);
+                if acc.violations.iter().filter(|v| v.signature == sig).count() >= 3 {
+                    acc.count("float.wide.roundtrip_differs.witness_not_stored");
+                    continue;
+                }
                 acc.violation(
                     &format!("c42/roundtrip-differs/float-precision/{}", S::NAME),
                     json!({"subject": S::NAME, "filter": format!("{t:?}"), "printed": text, "outcome": what, "in_exact_class": exact_class,
